@@ -14,6 +14,10 @@ CHECKS = {
    text='ExprLang!Jet is second-order forward-mode differentiation by the calculus rules, built by TLC as terms with every discrete decision exact; TLC checks gradient support and Hessian symmetry on the model; every differentiable emitted DAG is replayed through get_value_and_derivatives (all flag combinations, per-observation and aggregated, named results), BIOGEME.calculate_likelihood_and_derivatives (scaled or not), create_function and create_objective_function, and the literal ids crossing the engine boundary are checked to be 0..K-1.',
    note='trusted: TLC, vb/terms.py arithmetic (fractions) and libm; derivative entries compared at 1e-8 of the largest expected entry; formulas the engine refuses to differentiate (BelongsTo, free parameter below a comparison) are outside the property',
    technique='TLA+ spec ExprLang (Jet) + TLC generation, spec->code replay at the engine boundary', ref='5 C02'),
+ 'C03': dict(
+   text='IdManager.tla defines identification by name (tables are a function of the set of leaves, entry k belongs to the k-th name in Python string order, dictionaries override exactly the names they list, optimum attached to the role name); TLC checks order-irrelevance, sortedness, attachment and renaming invariance for every injective renaming into an order-tricky name pool x order of appearance x status x bounds x partial dictionary; every behaviour is replayed into BIOGEME.free_beta_names, get_bounds_on_beta, calculate_likelihood, simulate(dict), get_value_c(partial dict), change_init_values, fix_betas, the vectors and Beta lines crossing the engine boundary, estimate() on a sample; name clashes must raise BiogemeError.',
+   note='trusted: TLC; exact rational likelihood of a separable concave quadratic model compared at 1e-12, estimates at 1e-4; dictionaries naming a fixed parameter are not used',
+   technique='TLA+ spec IdManager + TLC enumeration of renamings/orders, spec->code replay incl. engine-boundary vectors', ref='5 C03'),
 }
 
 def cmd(pid, tier):
